@@ -11,6 +11,12 @@ from pytestarch.eval_structure_generation.file_import.import_types import (
 )
 
 
+# nodes that can (transitively) contain import statements; match statements only exist from Python 3.10 on
+_NODES_WITH_STATEMENT_LISTS: tuple[type, ...] = (ast.stmt, ast.excepthandler) + (
+    (ast.match_case,) if hasattr(ast, "match_case") else ()
+)
+
+
 class ImportConverter:
     """Converts all ast imports to custom import types."""
 
@@ -45,7 +51,7 @@ class ImportConverter:
                     [
                         NamedModule(m, module_name)  # type: ignore
                         for m in ast.iter_child_nodes(ast_module)
-                        if isinstance(m, (ast.stmt, ast.excepthandler, ast.match_case))
+                        if isinstance(m, _NODES_WITH_STATEMENT_LISTS)
                     ]
                 )
             else:
